@@ -95,17 +95,29 @@ namespace pika::threads::detail {
 
     void thread_data::run_thread_exit_callbacks()
     {
+#if defined(PIKA_VERIF)
+        PIKA_VERIF_POINT(1311, this);    // about to run the exit callbacks (no lock held)
+#endif
         std::unique_lock<pika::detail::spinlock> l(spinlock_pool::spinlock_for(this));
 
         while (!exit_funcs_.empty())
         {
             {
                 pika::detail::unlock_guard<std::unique_lock<pika::detail::spinlock>> ul(l);
+#if defined(PIKA_VERIF)
+                PIKA_VERIF_POINT(1312, this);    // unlocked, before invoking the front callback
+#endif
                 if (!exit_funcs_.front().empty()) exit_funcs_.front()();
+#if defined(PIKA_VERIF)
+                PIKA_VERIF_POINT(1313, this);    // unlocked, after the callback
+#endif
             }
             exit_funcs_.pop_front();
         }
         ran_exit_funcs_ = true;
+#if defined(PIKA_VERIF)
+        PIKA_VERIF_POINT(1314, this);    // non-blocking (lock held): exit callbacks marked as run
+#endif
     }
 
     bool thread_data::add_thread_exit_callback(util::detail::function<void()> const& f)
@@ -149,6 +161,9 @@ namespace pika::threads::detail {
             // now interrupt this thread
             if (throw_on_interrupt)
             {
+#if defined(PIKA_VERIF)
+                PIKA_VERIF_POINT(1322, this);    // interruption delivered here
+#endif
                 requested_interrupt_ = false;    // avoid recursive exceptions
                 throw pika::thread_interrupted();
             }
